@@ -329,7 +329,8 @@ void AsyncSim::refresh_frames() {
 					size_t fl = frame_len(x.resp_body, off);
 					Frame f;
 					f.ep = (int)ei; f.xfer = x.idx;
-					f.arrive_seq = x.last_arrive_seq;
+					// (a body cut short in flight after its last delivered byte has no "final byte arrived" event: it is complete when the transfer ends)
+					f.arrive_seq = x.last_arrive_seq ? x.last_arrive_seq : (x.done_seq ? x.done_seq : K.seq);
 					if (fl == 0 || off + fl > x.resp_body.size()) {
 						f.bytes = x.resp_body.substr(off);
 						f.bad = true;
@@ -1109,10 +1110,19 @@ bool AsyncSim::cause_exists(const Attempt &a, int err, std::string &why) {
 			// the client itself gives up a connection whose stream is stuck in the middle of a request that timed out
 			if (a.failed_run && conn_event({"clientclose"}))
 				for (auto &r : recs) for (auto &at : r->att) if (at.failed_run == a.failed_run && at.failed_err == KSI_NETWORK_SEND_TIMEOUT) return true;
+			// ... or whose last request it will not finish (a partially sent configuration request that was completed meanwhile):
+			// the outgoing stream of the connection it closed ends in the middle of a PDU
+			for (auto &cp : N.conns) {
+				if (cp->ep != e.net_ep || cp->end_kind != "clientclose" || cp->ended_seq < lo_conn || cp->ended_seq > hi) continue;
+				size_t off = 0;
+				while (off < cp->c2s.size()) { size_t fl = frame_len(cp->c2s, off); if (fl == 0 || off + fl > cp->c2s.size()) break; off += fl; }
+				if (off < cp->c2s.size()) return true;
+			}
 			return false;
 		case KSI_NETWORK_ERROR:
 			why = "network error without a refused / unresolvable / failed transfer";
-			if (conn_event({"refused"})) return true;
+			// (a connection reset before the client has seen it established is reported like a failed connect)
+			if (conn_event({"refused", "rst"})) return true;
 			for (auto &d : N.dnsfail_log) if (d.first >= lo && d.first <= hi) return true;
 			if (xfer_fail()) return true;
 			if (e.http && connwide_cause(a)) return true;
